@@ -857,10 +857,10 @@ fn parse_json_filter(input: &[u8], output: &mut [u8]) -> Result<(usize, usize), 
             // Burn the rest
             eat_colon_with_whitespace(input, &mut inpos)?;
             verify_char(input, b'[', &mut inpos)?;
-            burn_array(input, &mut inpos)?;
+            burn_array(input, &mut inpos, 1)?;
         } else {
             // unknown field (the opening quote of its name is already consumed)
-            burn_rest_of_key_and_value(input, &mut inpos)?;
+            burn_rest_of_key_and_value(input, &mut inpos, 0)?;
         }
     }
 
